@@ -37,7 +37,7 @@ def run(chk):
     for (label, prog, ext, tr, sched) in items:
         o = [r for r in tr if r["e"] == "outcome"]
         if o and o[-1]["kind"] == "cancelled" and nres < chk.pick(60, 600):
-            tr = et.replay_then_resume(prog, sched, ext)
+            tr = et.replay_then_resume(prog, sched, ext, timeout_probe=(nres % 2 == 1))
             nres += 1
         out.append((label, prog, ext, tr, sched))
     chk.add(cancelled_runs_resumed=nres)
@@ -52,5 +52,5 @@ def run(chk):
         if r["e"] == "pub":
             return r["p"]["k"] in ("state", "timedout", "cancelled")
         return True
-    eg.standard_run(chk, "C31", None, {"pub", "step_start", "outcome", "quiet", "snapshot", "resumed", "resume_end"},
+    eg.standard_run(chk, "C31", None, {"pub", "step_start", "outcome", "quiet", "snapshot", "resumed", "resume_end", "resume_timeout_probe"},
                     nontrivial=nontrivial, items=out, extra=extra, keep=keep, key_of=key_of)
